@@ -125,6 +125,21 @@ def oracle_model(getter, rng, tier_quick, notes):
     base.draw_sample = orig
     if s.shape != (500, 2) or not np.array_equal(s, inv(rec["s"])):
         return ({"clause": "sample", "getter": getter}, "draw_sample is not inverse(base.draw_sample)")
+    # ... for every way of seeding the draw (int seeds incl. 0, Generator), whatever the model's own random_state is
+    from virocon import TransformedModel as _TM
+    for mseed in (None, 42, 0):
+        tm_s = _TM(base, t, inv, jac, precision_factor=tm.precision_factor, random_state=mseed)
+        for sd in (0, 1, 42, 2 ** 31 - 1, "gen0", "gen5"):
+            mk = (lambda: np.random.default_rng(int(sd[3:]))) if isinstance(sd, str) else (lambda: sd)
+            try:
+                got_s = tm_s.draw_sample(50, random_state=mk())
+            except TypeError as e:
+                return ({"clause": "sample-seed", "getter": getter, "exc": "TypeError"}, "TransformedModel.draw_sample(50, random_state=%r) raised TypeError: %s" % (sd, e))
+            want_s = inv(base.draw_sample(50, random_state=mk()))
+            if not np.array_equal(got_s, want_s):
+                return ({"clause": "sample-seed", "getter": getter},
+                        "TransformedModel(random_state=%r).draw_sample(50, random_state=%r) is not inverse(base.draw_sample(50, random_state=%r)): first row %r vs %r"
+                        % (mseed, sd, sd, got_s[0].tolist(), want_s[0].tolist()))
     # empirical cdf = fraction of sample rows with all coordinates <= x
     pts = x[:5]
     ec = tm.empirical_cdf(pts, sample=s)
@@ -243,6 +258,32 @@ def oracle_model(getter, rng, tier_quick, notes):
             if abs(f1 - pp[i, 1]) > e1 + beyond + 1e-6:
                 return ({"clause": "iform-conditional", "getter": getter},
                         "IFORM point %d: tz=%r given hs=%r has conditional probability %r, wanted %r (DKW bound %.4f for %d draws)" % (i, tz_i, hs_i, f1, float(pp[i, 1]), e1, n_1))
+    # conditional_icdf: element i is the p[i]-quantile of Tz given Hs = given[i] -- exact conditional law of the push-forward
+    # F(t | h) = 1 - F_S|Hs(s(h, t) | h); consecutive givens that are close but different each get their own law
+    if getter.startswith("fitted:") or not tier_quick:
+        d1 = base.distributions[1]
+        gl = [0.0100, 0.0104, 0.0108, 0.0112, 0.0116, 0.0120, 0.0140, 0.0144, 0.05, 0.0507, 0.1, 0.1004, 1.0, 1.0008, 3.0, 3.0005, 8.0]
+        for pq in (0.5, 0.95):
+            pp_ = np.full(len(gl), pq)
+            with warnings.catch_warnings():
+                warnings.simplefilter("ignore")
+                xq = np.asarray(tm.conditional_icdf(pp_, 1, np.array(gl), random_state=3), dtype=float)
+            n_q = int(min(max((1 / min(pq, 1 - pq)) * 100, 100000), 10000000))
+            e_q = math.sqrt(math.log(2 / 1e-12) / (2 * n_q))
+            for h, xv in zip(gl, xq):
+                s_cap = float(np.asarray(t(np.array([[h, 100.0]])))[0, 1])
+                beyond = float(np.atleast_1d(d1.cdf(np.array([s_cap]), given=np.array([h])))[0])
+                if beyond > 1e-4 or not (xv > 0):
+                    notes["icdf_unjudged"] = notes.get("icdf_unjudged", 0) + 1
+                    continue
+                s_x = float(np.asarray(t(np.array([[h, xv]])))[0, 1])
+                Fx = 1.0 - float(np.atleast_1d(d1.cdf(np.array([s_x]), given=np.array([h])))[0])
+                notes.setdefault("icdf_prob_dev_max", 0.0)
+                notes["icdf_prob_dev_max"] = max(notes["icdf_prob_dev_max"], round(abs(Fx - pq), 5))
+                if abs(Fx - pq) > e_q + beyond + 1e-6:
+                    return ({"clause": "conditional-icdf", "getter": getter},
+                            "conditional_icdf(p=%r, dim=1, given=%r) [element of the vector call given=%r] = %r, whose conditional probability is %r (DKW bound %.4f for %d draws)"
+                            % (pq, h, gl, float(xv), Fx, e_q, n_q))
     # conditional_cdf: element i is the conditional cdf at x[i] given given[i], for givens in ANY order, with repeats
     # (the implementation uses 100000 draws per element: DKW bound at error probability 1e-12)
     eps_c = math.sqrt(math.log(2 / 1e-12) / (2 * 100000))
@@ -343,7 +384,7 @@ def run(ctx):
             if found >= 4:
                 break
     notes = {}
-    for g in GETTERS + ["fitted:get_Windmeier_EW_Hs_S"]:
+    for g in GETTERS + ["fitted:get_Windmeier_EW_Hs_S", "fitted:get_Nonzero_EW_Hs_S"]:
         try:
             o = oracle_model(g, ctx.np_rng(1), ctx.quick(), notes)
         except Exception as e:  # noqa
